@@ -17,33 +17,47 @@ Print Assumptions C04_suspended_pops_no_user_partial.
 
 (* Mechanism of "handles no further user message until its supervisor has decided", for every role table, every run
    from the freshly started system and every following step: an actor (other than the two system actors) whose
-   mailbox is suspended is still suspended after the step, UNLESS the step's observations show one of the three
-   things that legitimately lift a suspension: a supervisor applying the Resume directive to that address
-   (ODec _ t DResume _), an actor with that address completing its restart (its own OnTerminated, OH t _ TTS) or an
-   actor with that address starting to terminate (OH t _ TT; from then on user messages become dead letters).
+   mailbox is suspended — with no resume request pending for its address: a supervisor's Resume decision travels as a
+   queued request that the actor applies itself, and only while it is alive (so that a decision about an earlier failure
+   cannot resume an actor that is restarting; found while proving C03, see DESIGN) — is still suspended after the step,
+   and still nothing is pending, UNLESS the step's observations show one of the three things that legitimately lift a
+   suspension: a supervisor applying the Resume directive to that address (ODec _ t DResume _), an actor with that
+   address completing its restart (its own OnTerminated, OH t _ TTS) or an actor with that address starting to
+   terminate (OH t _ TT; from then on user messages become dead letters).
    Nothing else — no send, spawn, watch, failure of another actor, restart or stop of another address, timer —
    resumes it. Uses the registry invariant (an address resolves to an object carrying that address). *)
 Theorem C04_suspension_lifted_only_by_directive : forall roles ls s os l s' o u a,
   krun roles kinit ls = Some (s, os) ->
-  get s u = Some a -> is_sys (a_tok a) = false -> a_susp a = true -> kstep roles s l = Some (s', o) ->
-  (exists a', get s' u = Some a' /\ a_tok a' = a_tok a /\ a_susp a' = true) \/ marker (a_tok a) o = true.
+  get s u = Some a -> is_sys (a_tok a) = false -> a_susp a = true -> nrp (a_tok a) s -> kstep roles s l = Some (s', o) ->
+  ((exists a', get s' u = Some a' /\ a_tok a' = a_tok a /\ a_susp a' = true) /\ nrp (a_tok a) s') \/ marker (a_tok a) o = true.
 Proof. exact suspension_lifted_only_by_directive_reachable. Qed.
 Print Assumptions C04_suspension_lifted_only_by_directive.
+
+(* a resume request for an address becomes pending only in a step that shows a marker for that address (in fact the
+   supervisor's Resume decision), from every reachable state; none is pending in the freshly started system *)
+Theorem C04_resume_request_only_by_directive : forall roles ls s os l s' o t,
+  krun roles kinit ls = Some (s, os) -> is_sys t = false -> nrp t s -> kstep roles s l = Some (s', o) ->
+  nrp t s' \/ marker t o = true.
+Proof. intros roles ls s os l s' o t Hr. apply resume_request_only_by_directive. eapply RI_reachable; [apply RI_init|exact Hr]. Qed.
+Print Assumptions C04_resume_request_only_by_directive.
+Theorem C04_no_resume_request_at_start : forall t, nrp t kinit.
+Proof. exact nrp_init. Qed.
+Print Assumptions C04_no_resume_request_at_start.
 
 (* "The failing actor handles no further user message until its supervisor has decided." waiting t a: the object is at
    address t, its mailbox is suspended and no user message is in flight — the situation a failure leaves behind
    (ReportAbnormal / the panic path suspend the mailbox inside the failing step, whose in-flight message was already
    taken out, and the pop at the end of a step takes no user message from a suspended mailbox). For every role table,
-   from every state reachable from the fresh system: a waiting actor (not a system actor) is still waiting after any
-   step whose observations contain no marker for t (Resume applied to t by a supervisor / own OnTerminated of a
-   restart completing / OnTerminate of a termination starting). While it waits, a run of its mailbox processes system
-   messages only, so no user message is handed to it, and its queued user messages keep their order
-   (C02_kernel_mailbox_order_step). *)
+   from every state reachable from the fresh system: a waiting actor (not a system actor), no resume request pending for
+   its address, is still waiting — and nothing is pending — after any step whose observations contain no marker for t
+   (Resume applied to t by a supervisor / own OnTerminated of a restart completing / OnTerminate of a termination
+   starting). While it waits, a run of its mailbox processes system messages only, so no user message is handed to it,
+   and its queued user messages keep their order (C02_kernel_mailbox_order_step). *)
 Theorem C04_no_user_message_until_decision_step : forall roles ls s os l s' o u a,
   krun roles kinit ls = Some (s, os) ->
-  get s u = Some a -> is_sys (a_tok a) = false -> waiting (a_tok a) a ->
+  get s u = Some a -> is_sys (a_tok a) = false -> waiting (a_tok a) a -> nrp (a_tok a) s ->
   kstep roles s l = Some (s', o) -> marker (a_tok a) o = false ->
-  exists a', get s' u = Some a' /\ waiting (a_tok a) a'.
+  (exists a', get s' u = Some a' /\ waiting (a_tok a) a') /\ nrp (a_tok a) s'.
 Proof.
   intros roles ls s os l s' o u a Hr. apply no_user_step. eapply RI_reachable; [apply RI_init|exact Hr].
 Qed.
@@ -52,7 +66,7 @@ Print Assumptions C04_no_user_message_until_decision_step.
 (* ... and through any number of further steps, as long as none of them shows a marker *)
 Theorem C04_no_user_message_until_decision_run : forall roles ls0 s0 os0 ls s' os u a,
   krun roles kinit ls0 = Some (s0, os0) ->
-  get s0 u = Some a -> is_sys (a_tok a) = false -> waiting (a_tok a) a ->
+  get s0 u = Some a -> is_sys (a_tok a) = false -> waiting (a_tok a) a -> nrp (a_tok a) s0 ->
   krun roles s0 ls = Some (s', os) -> (forall o, In o os -> marker (a_tok a) o = false) ->
   exists a', get s' u = Some a' /\ waiting (a_tok a) a'.
 Proof.
@@ -82,10 +96,45 @@ Definition c04_roles : list role :=
   [ {| victim := None; sup := [DResume]; rules := [ {| r_on := KL; r_n := -1; r_inst := -1; r_do := [ASpawn 1 1] |} ] |};
     {| victim := None; sup := []; rules := [ {| r_on := KP; r_n := 2; r_inst := -1; r_do := [APanic] |} ] |} ].
 Example C04_example :
-  exists s os, krun c04_roles kinit [LSpawn 0 0; LRun 2; LRun 3; LTell 1 2; LTell 1 3; LRun 3; LRun 2; LRun 3] = Some (s, os) /\
+  exists s os, krun c04_roles kinit [LSpawn 0 0; LRun 2; LRun 3; LTell 1 2; LTell 1 3; LRun 3; LRun 2; LRun 3; LRun 3] = Some (s, os) /\
     os = [[OSp rGuard 0]; [OH 0 0 TL 0 rNone; OSp 0 1]; [OH 1 0 TL 0 rNone]; [OS rGuard 1 1]; [OS rGuard 1 2];
-          [OH 1 0 (TP 2) 1 rNone; OF 1 0]; [ODec 0 1 DResume 1]; [OH 1 0 (TP 3) 2 rNone]].
+          [OH 1 0 (TP 2) 1 rNone; OF 1 0]; [ODec 0 1 DResume 1]; []; [OH 1 0 (TP 3) 2 rNone]].
 Proof. eexists. eexists. split; vm_compute; reflexivity. Qed.
+
+(* non-vacuity of the hypotheses above: right after the failing step of that scenario the actor (object 3, address 1) is
+   waiting and no resume request is pending for its address *)
+Example C04_window_example :
+  exists s os a, krun c04_roles kinit [LSpawn 0 0; LRun 2; LRun 3; LTell 1 2; LTell 1 3; LRun 3] = Some (s, os) /\
+    get s 3 = Some a /\ waiting 1 a /\ nrp 1 s.
+Proof.
+  eexists. eexists. eexists. split; [vm_compute; reflexivity|]. split; [vm_compute; reflexivity|].
+  split; [repeat split|apply nrpb_sound; vm_compute; reflexivity].
+Qed.
+
+(* The defect found while proving C03's "no user message in between" (repaired in /repo, see known_findings.json): a Resume
+   decision about an earlier failure of A arrives while A is restarting and waits for its child. With the request queued
+   and applied only by a living actor, the old instance handles nothing between OnRestarting and OnTerminate; the user
+   message 9 is handled by the new instance after OnRestarted and OnLaunch. *)
+Definition c04_stale_roles : list role :=
+ [ {| victim := None; sup := [DRestartAll]; rules := [ {| r_on := KL; r_n := -1; r_inst := -1; r_do := [ASpawn 1 1; ASpawn 2 2] |} ] |};
+   {| victim := Some DResume; sup := []; rules := [ {| r_on := KL; r_n := -1; r_inst := -1; r_do := [ASpawn 3 3] |};
+        {| r_on := KP; r_n := 1; r_inst := -1; r_do := [AReport] |} ] |};
+   {| victim := None; sup := []; rules := [ {| r_on := KP; r_n := 2; r_inst := -1; r_do := [APanic] |} ] |};
+   {| victim := None; sup := []; rules := [] |} ].
+Definition c04_stale_labels : list label :=
+ [LSpawn 0 0; LRun 2; LRun 3; LRun 4; LRun 5; LTell 1 1; LTell 1 1; LTell 1 9; LTell 2 2;
+  LRun 3; LRun 2; LRun 4; LRun 3; LRun 2; LRun 3; LRun 2; LRun 3; LRun 3; LRun 5; LRun 3].
+Definition handled_by1 (os : list (list obs)) : list (nat * trig) :=
+  flat_map (fun o => match o with OH a' i t _ _ => if (a' =? 1) then [(i, t)] else [] | _ => [] end) (concat os).
+Example C04_stale_resume_does_not_resume_a_restarting_actor :
+  exists s os, krun c04_stale_roles kinit c04_stale_labels = Some (s, os) /\
+    exists rest, handled_by1 os = [(0%nat, TL); (0%nat, TP 1); (0%nat, TP 1); (0%nat, TRG)] ++ rest /\
+                 forall it, In it rest -> fst it = 0%nat -> exists w, snd it = TT \/ snd it = TTS \/ snd it = TTO w.
+Proof.
+  eexists. eexists. split; [vm_compute; reflexivity|]. vm_compute. eexists. split; [reflexivity|].
+  intros it Hin H0. repeat (destruct Hin as [<-|Hin]; [first [discriminate H0|exists 3; auto]|]). destruct Hin.
+Qed.
+
 
 (* ================================================================================================================
    STRATEGY LAYER (MV.C04.StratModel: supervision/one_for_one.go, accident_state.go, the canned strategies, and
